@@ -17,13 +17,14 @@
 (*   ImplFind    the binary search of GuestMemoryMmap::find_region         *)
 (*   TA          the loop of GuestMemory::try_access                       *)
 (***************************************************************************)
-EXTENDS PageSet, FiniteSets, Sequences, TLC
+EXTENDS PageSet, ScriptIO, FiniteSets, Sequences, TLC
 
 CONSTANTS
     Layouts,      \* set of sequences of <<start, len>>
     Backends,     \* subset of {"mmap", "custom"}
     PVals,        \* bitmap page sizes
     AddrVals, CntVals, BufLens, EszVals, AtomVals,
+    Scripts,      \* scripts of per-call stream behaviours tried by the scripted-stream actions (C14)
     WrapArm       \* TRUE: try_access as originally written (continues at address 0 after wrapping)
 
 VARIABLES st, last
@@ -105,6 +106,32 @@ TA(regs, cur, total, count) ==
 
 \* abstract result of an up-to access of c bytes at a (c > 0)
 UpTo(regs, a, c) == LET n == Run(regs, a, c) IN IF n = 0 THEN Err("InvalidGuestAddress") ELSE OkN(n)
+
+\* ---- C14: guest-level transfers against a scripted stream ------------------------------------
+\* read_volatile_from: try_access with callback region.read_volatile_from (one logical call per chunk)
+\* returns [res |-> "ok"|"err"|"inv", n |-> bytes moved]
+RECURSIVE SRead(_, _, _, _, _)
+SRead(regs, cur, total, count, sc) ==
+    LET i == Owner(regs, cur) IN
+    IF i = 0 \/ cur >= WORD THEN [res |-> IF total = 0 THEN "inv" ELSE "ok", n |-> total]
+    ELSE LET len == Min(regs[i].n - (cur - regs[i].s), count - total)
+             c == Call(sc, len) IN
+         IF c.r = ERR THEN [res |-> "err", n |-> total]
+         ELSE IF c.r = 0 THEN [res |-> "ok", n |-> total]
+         ELSE IF total + c.r = count THEN [res |-> "ok", n |-> count]
+         ELSE SRead(regs, cur + c.r, total + c.r, count, c.s)
+\* write_volatile_to: callback region.write_all_volatile_to(.., len).map(|()| len)  (write_all per region chunk)
+\* returns [res |-> "ok"|"err"|"zero"|"inv", n |-> bytes accounted, out |-> bytes handed to the writer]
+RECURSIVE SWrite(_, _, _, _, _, _)
+SWrite(regs, cur, total, count, sc, out) ==
+    LET i == Owner(regs, cur) IN
+    IF i = 0 \/ cur >= WORD THEN [res |-> IF total = 0 THEN "inv" ELSE "ok", n |-> total, out |-> out]
+    ELSE LET len == Min(regs[i].n - (cur - regs[i].s), count - total)
+             x == Exact(sc, len, 0) IN
+         IF x.res # "ok" THEN [res |-> x.res, n |-> total, out |-> out + x.done]
+         ELSE IF len = 0 THEN [res |-> "ok", n |-> total, out |-> out]
+         ELSE IF total + len = count THEN [res |-> "ok", n |-> count, out |-> out + len]
+         ELSE SWrite(regs, cur + len, total + len, count, x.s, out + len)
 
 \* ---- pure step function ---------------------------------------------------------
 AllOrErr(n, c, okres) == IF n = c THEN okres
@@ -252,6 +279,54 @@ Apply(s, op, a) ==
          LET r == regs[a.ri] IN
          IF a.addr > r.n THEN Res(s, Err("InvalidBackendAddress"))
          ELSE LET n == Min(r.n - a.addr, a.count) IN Res(s, OkD(n, Sub(r.mem, a.addr, n)))
+       \* ---------------- C14: scripted streams, guest level ----------------
+    [] op \in {"s_read_from", "s_read_exact_from"} ->
+         LET x == SRead(regs, a.addr, 0, a.count, a.script)
+             s2 == IF x.n = 0 THEN s ELSE WrG(s, a.addr, SrcBytes(0, x.n), x.n) IN
+         IF x.res = "inv" THEN Res(s, IF a.count = 0 THEN AnyRes ELSE Err("InvalidGuestAddress"))
+         ELSE IF x.res = "err" THEN Res(s2, [k |-> "err", e |-> "IOError", io |-> "Other", used |-> x.n])
+         ELSE IF op = "s_read_from" THEN Res(s2, [k |-> "ok", n |-> x.n, used |-> x.n])
+         ELSE IF x.n = a.count THEN Res(s2, [k |-> "ok", used |-> x.n])
+         ELSE Res(s2, [k |-> "err", e |-> "PartialBuffer", exp |-> a.count, done |-> x.n, used |-> x.n])
+    [] op \in {"s_write_to", "s_write_all_to"} ->
+         LET x == SWrite(regs, a.addr, 0, a.count, a.script, 0)
+             got == RdG(regs, a.addr, x.out) IN
+         IF x.res = "inv" THEN Res(s, IF a.count = 0 THEN AnyRes ELSE Err("InvalidGuestAddress"))
+         ELSE IF x.res = "err" THEN Res(s, [k |-> "err", e |-> "IOError", io |-> "Other", data |-> got])
+         ELSE IF x.res = "zero" THEN Res(s, [k |-> "err", e |-> "IOError", io |-> "WriteZero", data |-> got])
+         ELSE IF op = "s_write_to" THEN Res(s, [k |-> "ok", n |-> x.n, data |-> got])
+         ELSE IF x.n = a.count THEN Res(s, [k |-> "ok", data |-> got])
+         ELSE Res(s, [k |-> "err", e |-> "PartialBuffer", exp |-> a.count, done |-> x.n, data |-> got])
+       \* ---------------- C14: scripted streams, region level (= the VolatileSlice code) ----------------
+    [] op = "rs_read_from" ->
+         LET r == regs[a.ri] IN
+         IF a.addr > r.n THEN Res(s, Err("InvalidBackendAddress"))
+         ELSE LET c == Call(a.script, Min(r.n - a.addr, a.count)) IN
+              IF c.r = ERR THEN Res(s, [k |-> "err", e |-> "IOError", io |-> "Other", used |-> 0])
+              ELSE Res(WrR(s, a.ri, a.addr, SrcBytes(0, c.r), c.r), [k |-> "ok", n |-> c.r, used |-> c.r])
+    [] op = "rs_read_exact_from" ->
+         LET r == regs[a.ri]
+             e == CheckedAdd(a.addr, a.count) IN
+         IF e = NONE \/ e > r.n THEN Res(s, Err("InvalidBackendAddress"))
+         ELSE LET x == Exact(a.script, a.count, 0)
+                  s2 == WrR(s, a.ri, a.addr, SrcBytes(0, x.done), x.done) IN
+              IF x.res = "ok" THEN Res(s2, [k |-> "ok", used |-> x.done])
+              ELSE Res(s2, [k |-> "err", e |-> "IOError", io |-> IF x.res = "zero" THEN "UnexpectedEof" ELSE "Other",
+                            used |-> x.done])
+    [] op = "rs_write_to" ->
+         LET r == regs[a.ri] IN
+         IF a.addr > r.n THEN Res(s, Err("InvalidBackendAddress"))
+         ELSE LET c == Call(a.script, Min(r.n - a.addr, a.count)) IN
+              IF c.r = ERR THEN Res(s, [k |-> "err", e |-> "IOError", io |-> "Other", data |-> <<>>])
+              ELSE Res(s, [k |-> "ok", n |-> c.r, data |-> Sub(r.mem, a.addr, c.r)])
+    [] op = "rs_write_all_to" ->
+         LET r == regs[a.ri]
+             e == CheckedAdd(a.addr, a.count) IN
+         IF e = NONE \/ e > r.n THEN Res(s, Err("InvalidBackendAddress"))
+         ELSE LET x == Exact(a.script, a.count, 0) IN
+              IF x.res = "ok" THEN Res(s, [k |-> "ok", data |-> Sub(r.mem, a.addr, x.done)])
+              ELSE Res(s, [k |-> "err", e |-> "IOError", io |-> IF x.res = "zero" THEN "WriteZero" ELSE "Other",
+                           data |-> Sub(r.mem, a.addr, x.done)])
     [] op = "bitmap_reset" ->
          Res([s EXCEPT !.regs = [i \in 1 .. Len(regs) |-> [regs[i] EXCEPT !.dirty = {}]]], OkU)
 
@@ -316,6 +391,17 @@ RData == \E i \in RegIdx, x \in AddrVals :
                    Step("r_read_volatile_from", [ri |-> i, addr |-> x, src |-> Tag(k), count |-> n])
             \/ \E n \in CntVals : Step("r_write_volatile_to", [ri |-> i, addr |-> x, count |-> n])
 
+SGuest == \E x \in AddrVals, n \in CntVals, sc \in Scripts :
+             \/ Step("s_read_from", [addr |-> x, count |-> n, script |-> sc])
+             \/ Step("s_read_exact_from", [addr |-> x, count |-> n, script |-> sc])
+             \/ Step("s_write_to", [addr |-> x, count |-> n, script |-> sc])
+             \/ Step("s_write_all_to", [addr |-> x, count |-> n, script |-> sc])
+SRegion == \E i \in RegIdx, x \in AddrVals, n \in CntVals, sc \in Scripts :
+             \/ Step("rs_read_from", [ri |-> i, addr |-> x, count |-> n, script |-> sc])
+             \/ Step("rs_read_exact_from", [ri |-> i, addr |-> x, count |-> n, script |-> sc])
+             \/ Step("rs_write_to", [ri |-> i, addr |-> x, count |-> n, script |-> sc])
+             \/ Step("rs_write_all_to", [ri |-> i, addr |-> x, count |-> n, script |-> sc])
+
 MkRegs(lay) == [i \in 1 .. Len(lay) |->
                   [s |-> lay[i][1], n |-> lay[i][2], mem |-> IF lay[i][2] <= Len(FillSeq) THEN SubSeq(FillSeq, 1, lay[i][2]) ELSE [j \in 1 .. lay[i][2] |-> 0],
                    dirty |-> {}]]
@@ -328,6 +414,7 @@ Queries == \/ FindRegion \/ ToRegionAddr \/ AddressInRange \/ CheckAddress \/ Ch
            \/ LastAddr \/ GetHostAddress \/ GetSlice \/ NumRegions \/ Iter \/ RQueries
 Data == \/ Write \/ Read \/ WriteSlice \/ ReadSlice \/ WriteObj \/ ReadObj \/ Store \/ Load
         \/ ReadVolatileFrom \/ ReadExactVolatileFrom \/ WriteVolatileTo \/ WriteAllVolatileTo \/ RData
+        \/ SGuest \/ SRegion
 Next == Queries \/ Data
 Spec == Init /\ [][Next]_vars
 
@@ -347,6 +434,17 @@ DirtySoundG ==
     [][ Tracked(st) => \A i \in 1 .. Len(st.regs) : \A j \in 1 .. st.regs[i].n :
           st'.regs[i].mem[j] # st.regs[i].mem[j] => ((j - 1) \div st.P) \in st'.regs[i].dirty ]_vars
 LayoutFixed == [][ \A i \in 1 .. Len(st.regs) : st'.regs[i].s = st.regs[i].s /\ st'.regs[i].n = st.regs[i].n ]_vars
+
+\* C14: an interruption never surfaces; every byte consumed from a scripted reader is stored (count used = bytes
+\* stored at consecutive guest addresses), every byte handed to a scripted writer is the next guest byte
+ScriptedOps == {"s_read_from", "s_read_exact_from", "s_write_to", "s_write_all_to",
+                "rs_read_from", "rs_read_exact_from", "rs_write_to", "rs_write_all_to"}
+EintrNeverSurfaces == (last.op \in ScriptedOps /\ "io" \in DOMAIN last.r) => last.r.io # "Interrupted"
+ExactIffFull == (last.op \in {"s_read_exact_from", "rs_read_exact_from"} /\ last.r.k \in {"ok", "err"} /\ "used" \in DOMAIN last.r)
+                   => (last.r.k = "ok" <=> last.r.used = last.a.count)
+NoLossNoDup ==
+    [][ (last'.op \in {"s_read_from", "s_read_exact_from"} /\ "used" \in DOMAIN last'.r) =>
+          \A j \in 1 .. last'.r.used : ByteAt(st'.regs, last'.a.addr + j - 1) = SrcByte(j) ]_vars
 
 View == st
 =============================================================================
